@@ -252,6 +252,23 @@ pub trait Merge: StorageEventLogs {
             None => {}
         }
 
+        // File events are merged before account events: deleting
+        // a folder records file events for the blobs it still finds
+        // so blobs that the remote log already moved or deleted
+        // must be handled first otherwise the file log diverges
+        #[cfg(feature = "files")]
+        match diff.files {
+            Some(MaybeDiff::Diff(diff)) => {
+                self.merge_files(diff, outcome).await?;
+            }
+            Some(MaybeDiff::Compare(state)) => {
+                if let Some(state) = state {
+                    compare.files = Some(self.compare_files(&state).await?);
+                }
+            }
+            None => {}
+        }
+
         let mut deleted_folders = HashSet::new();
 
         match diff.account {
@@ -276,19 +293,6 @@ pub trait Merge: StorageEventLogs {
             Some(MaybeDiff::Compare(state)) => {
                 if let Some(state) = state {
                     compare.device = Some(self.compare_device(&state).await?);
-                }
-            }
-            None => {}
-        }
-
-        #[cfg(feature = "files")]
-        match diff.files {
-            Some(MaybeDiff::Diff(diff)) => {
-                self.merge_files(diff, outcome).await?;
-            }
-            Some(MaybeDiff::Compare(state)) => {
-                if let Some(state) = state {
-                    compare.files = Some(self.compare_files(&state).await?);
                 }
             }
             None => {}
